@@ -91,7 +91,7 @@ private:
 };
 
 // what the harness knows about one routed Message, fixed at the instant the server processed it
-struct RoutedExpect {int fromConn; int seq; std::set<int> expectConns; std::string keysDesc;};
+struct RoutedExpect {int fromConn; uint32 fromSid; int seq; std::set<uint32> expectSids; std::string keysDesc;};
 
 class ServerSim
 {
@@ -103,7 +103,7 @@ public:
    uint64 nextPulse = MUSCLE_TIME_NEVER;
    uint64_t steps = 0, cmdsProcessed = 0;
    std::vector<RoutedExpect> routed;          // index = order of processing
-   int currentCmdConn = -1; int cmdDepth = 0;
+   int currentCmdConn = -1; int cmdDepth = 0; std::vector<MessageRef> cmdCopies;
    std::map<std::string, std::string> snapBefore;   // isolation: tree snapshot at command begin
    std::map<std::string, std::string> othersBefore; // isolation: other sessions' observable state at command begin
    std::vector<std::string> departedRoots;    // roots of sessions that have left (must never reappear)
@@ -221,6 +221,7 @@ public:
       Conn * c = C(connIdx); if ((c == NULL)||(msg() == NULL)) return;
       currentCmdConn = connIdx; cmdsProcessed++;
       const bool topLevel = (cmdDepth++ == 0);   // sub-commands of a BATCH re-enter here
+      cmdCopies.push_back(GetMessageFromPool(*msg()));   // the handler may move fields out of the command (SETPARAMETERS does): the model reads this copy
       if (topLevel) c->cmdsProcessed++; else st.inc("p.batch_subcommand");
       char wb[64]; snprintf(wb, sizeof(wb), "conn %d what=%u (%u fields)", connIdx, msg()->what, msg()->GetNumNames()); lastCmdDesc = wb;
       if (c->hostile) lastHostileDesc = lastCmdDesc;
@@ -245,7 +246,8 @@ public:
    {
       Conn * c = C(connIdx); currentCmdConn = -1; if ((c == NULL)||(msg() == NULL)) return;
       if (cmdDepth > 0) cmdDepth--;
-      if (msg()->what != PR_COMMAND_BATCH) ApplyToServerModel(c, *msg(), 0);   // a BATCH's sub-commands were applied one by one as they were processed
+      MessageRef asReceived; if (!cmdCopies.empty()) {asReceived = cmdCopies.back(); cmdCopies.pop_back();}
+      if ((msg()->what != PR_COMMAND_BATCH)&&(asReceived())) ApplyToServerModel(c, *asReceived(), 0);   // a BATCH's sub-commands were applied one by one as they were processed
       if (HasAliases(c->serverSubs)) {c->everAliased = true; st.inc("p.aliased_subscriptions");}
       if (orc.marks) CheckMarks("after command");
       if (orc.index) CheckIndexWellFormed();
@@ -521,7 +523,7 @@ public:
    void ExpectRouted(Conn * c, const MessageRef & msg)
    {
       if (msg()->what != (uint32) ROUTED_WHAT) return;
-      RoutedExpect ex; ex.fromConn = c->idx; ex.seq = msg()->GetInt32("seq", -1);
+      RoutedExpect ex; ex.fromConn = c->idx; ex.fromSid = c->sid; ex.seq = msg()->GetInt32("seq", -1);
       std::vector<std::string> keys; const String * s;
       for (uint32 i=0; msg()->FindString(PR_NAME_KEYS, i, &s).IsOK(); i++) keys.push_back(s->Cstr());
       const bool hasKeys = msg()->HasName(PR_NAME_KEYS, B_STRING_TYPE);
@@ -530,35 +532,49 @@ public:
       std::string kd; if (use) for (auto & k : *use) kd += k + " "; else kd = "<broadcast>";
       ex.keysDesc = kd;
       SimSession * ss = AnySess();
-      if (use == NULL) {for (auto & cp : conns) if ((cp)&&(cp->up)&&((cp->idx != c->idx)||(c->self))) ex.expectConns.insert(cp->idx); st.inc("p.route_broadcast");}
+      if (use == NULL) {for (auto & cp : conns) if ((cp)&&(cp->up)&&((cp->idx != c->idx)||(c->self))) ex.expectSids.insert(cp->sid); st.inc("p.route_broadcast");}
       else if (ss)
       {
          if (!hasKeys) st.inc("p.route_default");
          // (a) the library's own per-path matcher applied to every node: the property's "traversal == brute force" reference
          // (b) the independent matcher, when every key is in the conservative subset
          bool conservative = true; for (auto & k : *use) if (!IsConservative(k)) conservative = false;
-         std::set<int> byLib, byInd;
-         PathMatcher pm; for (size_t i=0; i<use->size(); i++) {ConstQueryFilterRef qf; if ((hasKeys)&&(i < filts.size())) qf = filts[i].ToMuscle(); (void) pm.PutPathString((*use)[i].c_str(), qf);}
+         // the same key string twice in one Message (with different filters) collapses to one matcher entry in the server: not a well-formed request, no independent verdict
+         {std::set<std::string> seen; for (auto & k : *use) if (!seen.insert(match::Normalise(k)).second) {conservative = false; st.inc("p.route_duplicate_keys");}}
+         std::set<uint32> byLib, byInd;
+         PathMatcher pm; for (size_t i=0; i<use->size(); i++) {ConstQueryFilterRef qf; if ((hasKeys)&&(i < filts.size())) qf = filts[i].ToMuscle(); (void) pm.PutPathFromString((*use)[i].c_str(), qf, "*/*");}   // same prefix rule as the server (relative keys get the implicit */*/ prefix)
          WalkTree(ss->Root(), [&](DataNode & n, const std::string & p) {
-            int owner = -1; for (auto & cp : conns) if ((cp)&&(cp->up)&&((p == cp->root)||(p.compare(0, cp->root.size()+1, cp->root + "/") == 0))) owner = cp->idx;
-            if (owner < 0) return;
-            if ((owner == c->idx)&&(!c->self)) return;
+            int ownerIdx = -1; uint32 owner = 0; for (auto & cp : conns) if ((cp)&&(cp->up)&&((p == cp->root)||(p.compare(0, cp->root.size()+1, cp->root + "/") == 0))) {ownerIdx = cp->idx; owner = cp->sid;}
+            if (ownerIdx < 0) return;
+            if ((ownerIdx == c->idx)&&(!c->self)) return;
             ConstMessageRef data = n.GetData();
             if (pm.MatchesPath(p.c_str(), data(), &n)) byLib.insert(owner);
             if (conservative) for (size_t i=0; i<use->size(); i++) if (match::PathMatch((*use)[i], p)) {const bool fok = ((!hasKeys)||(i >= filts.size())||(filts[i].EvalMsg(data()))); if (fok) byInd.insert(owner);} });
          if ((conservative)&&(byLib != byInd))
          {
-            std::string d = "keys [" + kd + "]: muscle's per-path matcher selects sessions {"; for (int x : byLib) d += I(x) + " "; d += "} but the independent matcher selects {"; for (int x : byInd) d += I(x) + " "; d += "}";
+            std::string d = "keys [" + kd + "]: muscle's per-path matcher selects sessions {"; for (uint32 x : byLib) d += U(x) + " "; d += "} but the independent matcher selects {"; for (uint32 x : byInd) d += U(x) + " "; d += "}";
             Fail("matcher_disagreement", d);
          }
-         ex.expectConns = byLib;
+         ex.expectSids = byLib;
          if (conservative) st.inc("p.route_conservative_keys"); else st.inc("p.route_full_syntax_keys");
       }
       routed.push_back(ex); st.inc("routed_processed");
-      if (ex.expectConns.size() >= 2) st.inc("p.route_multi_recipient");
-      if (ex.expectConns.count(c->idx)) st.inc("p.route_to_self");
+      if (ex.expectSids.size() >= 2) st.inc("p.route_multi_recipient");
+      if (ex.expectSids.count(c->sid)) st.inc("p.route_to_self");
    }
-   static bool IsConservative(const std::string & k) {for (char ch : k) if (!(isalnum((unsigned char) ch)||(strchr("*?[]-(|),/", ch)))) return false; return true;}
+   // is the key inside the subset the independent matcher implements?  (alternation only as a whole clause, not nested)
+   static bool IsConservative(const std::string & k)
+   {
+      for (char ch : k) if (!(isalnum((unsigned char) ch)||(strchr("*?[]-(|),/", ch)))) return false;
+      for (auto & cl : match::SplitOn(k, '/'))
+      {
+         size_t opens = 0; for (char ch : cl) if ((ch == '(')||(ch == ')')) opens++;
+         if ((opens > 0)&&((opens != 2)||(cl[0] != '(')||(cl[cl.size()-1] != ')'))) return false;
+         if ((cl.find('|') != std::string::npos)&&(opens == 0)) return false;
+         if ((cl.find('[') != std::string::npos)&&(cl.find(',') != std::string::npos)) return false;
+      }
+      return true;
+   }
 
    // ------------------------------------------------------------------ quiescence
    bool AnyTrafficPending()
@@ -668,37 +684,40 @@ public:
       return any;
    }
    size_t routedChecked = 0;
+   void AllConns(std::vector<Conn *> & out) {for (auto & cp : conns) if (cp) out.push_back(cp.get()); for (auto & r : retired) if (r) out.push_back(r.get());}
    void CheckRoutedAtQuiescence()
    {
-      // every routed Message processed so far: delivered exactly once to each expected recipient that is still connected, to nobody else
-      std::map<int, std::map<std::pair<int,int>, int> > got;   // conn -> (fromConn, seq) -> copies
-      for (auto & cp : conns) if (cp) for (auto & rx : cp->routedGot) got[cp->idx][std::make_pair(rx.fromConn, rx.seq)]++;
+      // every routed Message processed so far: delivered exactly once to each expected recipient session that is still connected, to nobody else
+      std::vector<Conn *> all; AllConns(all);
+      std::map<uint32, std::map<std::pair<uint32,int>, int> > got;   // receiver sid -> (sender conn, seq) -> copies
+      for (Conn * c : all) for (auto & rx : c->routedGot) got[c->sid][std::make_pair((uint32) rx.fromConn, rx.seq)]++;
       for (size_t i=routedChecked; i<routed.size(); i++)
       {
          const RoutedExpect & ex = routed[i];
-         for (auto & cp : conns) if ((cp)&&(cp->everUp))
+         for (Conn * c : all)
          {
-            Conn * c = cp.get();
-            const int copies = got[c->idx][std::make_pair(ex.fromConn, ex.seq)];
-            const bool expected = ex.expectConns.count(c->idx) > 0;
-            if ((expected)&&(c->up)&&(copies != 1)) Fail((copies == 0) ? "routed_not_delivered" : "routed_duplicated", "routed Message (from conn " + I(ex.fromConn) + " seq " + I(ex.seq) + ", keys [" + ex.keysDesc + "]) reached expected recipient conn " + I(c->idx) + " " + I(copies) + " times");
-            if ((!expected)&&(copies > 0)) Fail("routed_to_wrong_session", "routed Message (from conn " + I(ex.fromConn) + " seq " + I(ex.seq) + ", keys [" + ex.keysDesc + "]) reached conn " + I(c->idx) + " which owns no matching node");
+            if (!c->everUp) continue;
+            const int copies = got[c->sid][std::make_pair((uint32) ex.fromConn, ex.seq)];
+            const bool expected = ex.expectSids.count(c->sid) > 0;
+            const std::string what = "routed Message (from conn " + I(ex.fromConn) + " session " + U(ex.fromSid) + " seq " + I(ex.seq) + ", keys [" + ex.keysDesc + "])";
+            if ((expected)&&(copies > 1)) Fail("routed_duplicated", what + " reached expected recipient session " + U(c->sid) + " (conn " + I(c->idx) + ") " + I(copies) + " times");
+            if ((expected)&&(c->up)&&(copies == 0)) Fail("routed_not_delivered", what + " never reached expected recipient session " + U(c->sid) + " (conn " + I(c->idx) + ")");
+            if ((!expected)&&(copies > 0)) Fail("routed_to_wrong_session", what + " reached session " + U(c->sid) + " (conn " + I(c->idx) + ") which was not selected (owns no matching node / is the sender without reflect-to-self)");
          }
       }
       routedChecked = routed.size();
       // order per (sender, receiver) and true sender identity
-      for (auto & cp : conns) if (cp)
+      for (Conn * c : all)
       {
          std::map<int, int> lastSeq;
-         for (auto & rx : cp->routedGot)
+         for (auto & rx : c->routedGot)
          {
             auto it = lastSeq.find(rx.fromConn);
-            if ((it != lastSeq.end())&&(rx.seq <= it->second)) Fail("routed_out_of_order", "conn " + I(cp->idx) + " received seq " + I(rx.seq) + " after seq " + I(it->second) + " from conn " + I(rx.fromConn));
+            if ((it != lastSeq.end())&&(rx.seq < it->second)) Fail("routed_out_of_order", "session " + U(c->sid) + " received seq " + I(rx.seq) + " after seq " + I(it->second) + " from conn " + I(rx.fromConn));
             lastSeq[rx.fromConn] = rx.seq;
-            Conn * from = NULL; for (auto & x : conns) if ((x)&&(x->idx == rx.fromConn)) from = x.get();
-            bool sidOk = false;
-            if (from) {if (rx.sessionField == U(from->sid)) sidOk = true; for (auto & r : retired) if ((r)&&(r->idx == rx.fromConn)&&(rx.sessionField == U(r->sid))) sidOk = true;}
-            if (!sidOk) Fail("routed_wrong_sender_identity", "conn " + I(cp->idx) + " received a routed Message from conn " + I(rx.fromConn) + " whose session field says '" + rx.sessionField + "'");
+            // the sender was whichever incarnation of that connection slot processed this seq
+            bool sidOk = false; for (auto & ex : routed) if ((ex.fromConn == rx.fromConn)&&(ex.seq == rx.seq)&&(rx.sessionField == U(ex.fromSid))) sidOk = true;
+            if (!sidOk) Fail("routed_wrong_sender_identity", "session " + U(c->sid) + " received routed seq " + I(rx.seq) + " from conn " + I(rx.fromConn) + " whose sender-identity field says '" + rx.sessionField + "'");
          }
       }
    }
